@@ -258,6 +258,11 @@ func (x *Exec) execInstr(fr *Frame, ins ssa.Instruction) {
 		fr.vals[i] = Val{T: i.Type(), C: tv.C[lo:hi]}
 	case *ssa.Field:
 		sv := x.valueOf(fr, i.X)
+		if isDtype(i.X.Type()) {
+			// the embedded reflect.Type of a tensor.Dtype: an opaque non-nil interface value
+			fr.vals[i] = Val{T: i.Type(), C: []string{x.typeTagName("$reflect_rtype"), add(sv.C[0], "1")}}
+			return
+		}
 		stt := i.X.Type().Underlying().(*types.Struct)
 		lo, hi := fieldRange(stt, i.Field)
 		fr.vals[i] = Val{T: i.Type(), C: sv.C[lo:hi]}
